@@ -256,6 +256,10 @@ func GenAction(t *rapid.T, p *Profile, cfg *Config, ops []string) Action {
 		if rapid.IntRange(0, 3).Draw(t, "early") == 0 {
 			a.D = rapid.IntRange(1, 3).Draw(t, "stopafter")
 		}
+		if rapid.IntRange(0, 3).Draw(t, "miditer") == 0 {
+			a.Sel = 7 // the clock moves during the iteration (after the first element)
+			a.Dur = genDur(t, p, "middur")
+		}
 	case "setmaximum":
 		a.N = rapid.IntRange(0, 12).Draw(t, "newmax")
 		if p.MidScale && rapid.IntRange(0, 3).Draw(t, "midnewmaxcls") != 0 {
